@@ -10,6 +10,11 @@
 //!          writes for that challenge
 //!   KM   = `<default>[;CTXHEX=<val>]*`, default/val = `-` (no material) or 32 bytes of hex
 //!   SK / CLAIM = key seeds (secret key = fill(32, seed))
+//!   optional `hon=SK`: the case is marked as an HONEST RUN of the client holding SK (header by
+//!   the real client from its exporter `kmc`, first frame the real client's reply); the model
+//!   input is then `SHonest .. <public key of SK> <the client's material for it>` and the
+//!   monitor evaluates the completeness clause (authenticated as that key, by which mechanism)
+//!   on the implementation's result — after checking on the input that the run is honest.
 //! raw client case:
 //!   `C sk=SK kmc=<KM> reads=<-|ITEM..> wf=<..>`   (ITEM = `r:HEX` | `e`)
 //!
@@ -503,6 +508,9 @@ fn kv<'a>(toks: &'a [&'a str], key: &str) -> &'a str {
     }
     panic!("missing {key}")
 }
+fn kv_opt<'a>(toks: &'a [&'a str], key: &str) -> Option<&'a str> {
+    toks.iter().find_map(|t| t.strip_prefix(key).and_then(|v| v.strip_prefix('=')))
+}
 fn parse_ns(s: &str) -> Vec<u64> {
     if s == "-" { vec![] } else { s.split(',').map(|x| x.parse().unwrap()).collect() }
 }
@@ -604,6 +612,21 @@ fn run_server(toks: &[&str]) -> (String, String) {
             }
         }
     }
+    // an honest run: what the client signed in its header is ITS material
+    let honest: Option<(Vec<u8>, Option<[u8; 32]>)> = kv_opt(toks, "hon").map(|s| {
+        let pk = sk_of(s.parse().expect("hon=SK")).public().as_bytes().to_vec();
+        let ckm = kmc.lookup(&pk);
+        (pk, ckm)
+    });
+    if let (Some((pk, Some(ckm))), Some(hb)) = (&honest, &header_bytes) {
+        if let Ok(p) = data_encoding::BASE64URL_NOPAD.decode(hb) {
+            if let Some((k, Some(sig))) = key_sig_candidates(&p) {
+                if &k == pk {
+                    o.add_verify(&k, &ckm[..16], &sig);
+                }
+            }
+        }
+    }
     let msg = o.add_derive(&challenge);
     for f in resolved.iter().flatten() {
         if let Some((_, p)) = quic_varint(f) {
@@ -622,8 +645,12 @@ fn run_server(toks: &[&str]) -> (String, String) {
             format!("(C03.Deny {})", coq_opt(reason.as_ref(), |r| coq_hex(r.as_bytes())))
         }
     };
+    let (ctor, tail) = match &honest {
+        None => ("SCase", String::new()),
+        Some((pk, ckm)) => ("SHonest", format!(" {} {}", coq_hex(pk), coq_opt(ckm.as_ref(), |b| coq_hex(b)))),
+    };
     let coq_in = format!(
-        "(C03.SCase {} (C03.mkS {} {} {} {} {} {} {} {}))",
+        "(C03.{ctor} {} (C03.mkS {} {} {} {} {} {} {} {}){tail})",
         o.coq(),
         coq_opt(header_bytes.as_ref(), |h| coq_hex(h)),
         kmt,
@@ -973,8 +1000,57 @@ fn gen_client(rng: &mut Rng) -> String {
     format!("C sk={sk} kmc={} reads={reads} wf={}", kmc.raw(), gen_wf(rng))
 }
 
+/// an honest run: the real client's header (from its own exporter) and its reply to the
+/// challenge; all combinations of client / relay able to export, same / different material
+fn gen_honest(rng: &mut Rng) -> String {
+    let sk = rng.range(1, 6);
+    let ctx = sk_of(sk).public().as_bytes().to_vec();
+    let client_km = rand32(rng);
+    let mut kmc = Km::default();
+    kmc.default = if rng.chance(1, 3) { None } else { Some(client_km) };
+    let mut server_km = client_km;
+    let mut kms = Km::default();
+    match rng.below(8) {
+        0 => server_km[16 + rng.below(16) as usize] ^= 1 << rng.below(8), // suffix differs
+        1 => server_km[rng.below(16) as usize] ^= 1 << rng.below(8),      // signed half differs
+        2 => server_km = rand32(rng),                                     // unrelated
+        3 | 4 => kms.entries.push((ctx.clone(), None)),                   // the RELAY cannot export
+        _ => {}                                                           // the same material
+    }
+    if kms.entries.is_empty() {
+        kms.entries.push((ctx.clone(), Some(server_km)));
+    }
+    kms.default = if rng.chance(1, 2) { None } else { Some(rand32(rng)) };
+    let mut items = vec![format!("c:{sk}")];
+    if rng.chance(1, 6) {
+        items.push(if rng.chance(1, 2) { "e".into() } else { format!("h:{sk}:{sk}:0") });
+    }
+    // the first write (the challenge, if there is one) succeeds; later ones may fail
+    let wf = match rng.below(6) {
+        0 => format!("0,{}", rng.range(0, 4)),
+        1 => "0".to_string(),
+        _ => "-".to_string(),
+    };
+    let acc = match rng.below(6) {
+        0 => "D".to_string(),
+        1 => format!("D:{}", hex(&gen_reason(rng))),
+        _ => "A".to_string(),
+    };
+    format!(
+        "S hdr=hk:{sk} kms={} kmc={} reads={} wf={wf} acc={acc} with={} hon={sk}",
+        kms.raw(),
+        kmc.raw(),
+        items.join(","),
+        rng.below(2)
+    )
+}
+
 fn generate(rng: &mut Rng, _i: u64, _n: u64) -> String {
-    if rng.chance(3, 4) { gen_server(rng) } else { gen_client(rng) }
+    match rng.below(20) {
+        0..=2 => gen_honest(rng),
+        3..=6 => gen_client(rng),
+        _ => gen_server(rng),
+    }
 }
 
 fn main() {
